@@ -995,14 +995,28 @@ class BuiltinMixin:
             raise Unsupported(f"string method argument is not a str ({type(v).__name__})")
         return v.t
 
+    def _str_uf(self, name, t, py):
+        """an uninterpreted str->str library function; on a CONSTANT text it is its CPython value"""
+        c = z3.simplify(t)
+        if z3.is_app(c) and c.decl().kind() == z3.Z3_OP_ITE:
+            return z3.If(c.arg(0), self._str_uf(name, c.arg(1), py), self._str_uf(name, c.arg(2), py))
+        if z3.is_string_value(c):
+            from .solve import _unescape
+
+            try:
+                return z3.StringVal(py(_unescape(c.as_string())))
+            except Exception:  # noqa: BLE001
+                pass
+        return z3.Function(name, S, S)(t)
+
     def m_str_lower(self, st, sv, args, kwargs):
-        return [(st, VStr(z3.Function("str_lower", S, S)(sv.t)))]
+        return [(st, VStr(self._str_uf("str_lower", sv.t, lambda x: x.lower())))]
 
     def m_str_upper(self, st, sv, args, kwargs):
-        return [(st, VStr(z3.Function("str_upper", S, S)(sv.t)))]
+        return [(st, VStr(self._str_uf("str_upper", sv.t, lambda x: x.upper())))]
 
     def m_str_capitalize(self, st, sv, args, kwargs):
-        return [(st, VStr(z3.Function("str_capitalize", S, S)(sv.t)))]
+        return [(st, VStr(self._str_uf("str_capitalize", sv.t, lambda x: x.capitalize())))]
 
     def m_str_strip(self, st, sv, args, kwargs):
         return [(st, VStr(z3.Function("str_strip", S, S)(sv.t)))]
@@ -1065,6 +1079,39 @@ class BuiltinMixin:
     def str_percent(self, st, fmt, arg):
         """printf-style formatting: see C26; modelled as uninterpreted with a wellformedness
         predicate; raises ValueError/TypeError/KeyError when the format is not wellformed."""
+        # a CONSTANT format made only of literal text, `%%` and `%(name)s`, applied to a dict with
+        # constant keys, is computed exactly (CPython: '%(k)s' % d == str(d[k]); '%%' is '%')
+        cf = z3.simplify(fmt.t)
+        if z3.is_string_value(cf) and isinstance(arg, VRef) and isinstance(st.deref(arg), HDict) and st.deref(arg).present is None:
+            import re as _re
+
+            from .solve import _unescape
+            text = _unescape(cf.as_string())
+            if _re.fullmatch(r"(?:[^%]|%%|%\(\w+\)s)*", text):
+                d = st.deref(arg).items
+                states = [(st, [])]
+                for m_ in _re.finditer(r"[^%]+|%%|%\((\w+)\)s", text):
+                    nxt = []
+                    for s, acc in states:
+                        if isinstance(acc, Raised):
+                            nxt.append((s, acc))
+                        elif m_.group(0) == "%%":
+                            nxt.append((s, acc + [z3.StringVal("%")]))
+                        elif m_.group(1) is None:
+                            nxt.append((s, acc + [z3.StringVal(m_.group(0))]))
+                        elif m_.group(1) not in d:
+                            nxt.append(self.raised(s, "KeyError", m_.group(1)))
+                        else:
+                            for s2, sv in self.to_str(s, d[m_.group(1)]):
+                                nxt.append((s2, sv if isinstance(sv, Raised) else acc + [sv.t]))
+                    states = nxt
+                res = []
+                for s, acc in states:
+                    if isinstance(acc, Raised):
+                        res.append((s, acc))
+                    else:
+                        res.append((s, VStr(z3.StringVal("") if not acc else (acc[0] if len(acc) == 1 else z3.Concat(*acc)))))
+                return res
         wf = z3.Function("printf_wellformed", S, B)(fmt.t)
         out = []
         for s, ok in self.branch(st, wf):
@@ -1386,6 +1433,8 @@ class BuiltinMixin:
         repl, text = args[0], args[1]
         if not isinstance(text, VStr):
             return [self.raised(st, "TypeError", "expected string or bytes-like object")]
+        if isinstance(repl, (VFunc, VBound)) and z3.is_string_value(z3.simplify(text.t)):
+            return self._regex_sub_callable(st, rx, repl, z3.simplify(text.t))
         f = z3.Function("re_sub$" + rx.py[2], S, S, S)
         rt = repl.t if isinstance(repl, VStr) else z3.StringVal("<fn>")
         return [(st, VStr(f(rt, text.t)))]
@@ -1408,6 +1457,67 @@ class BuiltinMixin:
             return getattr(_re.compile(pat, flags), how)(t.as_string()) is not None
         except Exception:  # noqa: BLE001
             return None
+
+    def _regex_compiled(self, rx):
+        import re as _re
+
+        from .flow import const_eval
+        call = ast.parse(rx.py[3], mode="eval").body
+        mod = load.get_module(rx.py[1])
+        pat = const_eval(mod, call.args[0])
+        flags = 0
+        for a in call.args[1:]:
+            flags |= int(eval(ast.unparse(a), {"re": _re}))  # noqa: S307 - flag constants such as re.DOTALL
+        return _re.compile(pat, flags)
+
+    def m_regex_findall(self, st, rx, args, kwargs):
+        """findall on a CONCRETE text: decided by the real `re` module"""
+        t = z3.simplify(self._s(args[0]))
+        if not z3.is_string_value(t):
+            raise Unsupported("regex.findall on a symbolic text")
+        from .solve import _unescape
+        found = self._regex_compiled(rx).findall(_unescape(t.as_string()))
+        return [(st, st.alloc(HList(items=[const(x) if isinstance(x, str) else VTuple(tuple(const(y) for y in x)) for x in found])))]
+
+    def _regex_sub_callable(self, st, rx, repl, text):
+        """sub(<callable>, <concrete text>): the real matches, the engine's evaluation of the
+        callable on a match record for each, concatenated with the unmatched text in between"""
+        from .solve import _unescape
+        src = _unescape(text.as_string())
+        pieces = [(st, [])]
+        pos = 0
+        for m in self._regex_compiled(rx).finditer(src):
+            lit = src[pos:m.start()]
+            pos = m.end()
+            groups = {"0": const(m.group(0))}
+            for gi, g in enumerate(m.groups(), start=1):
+                groups[str(gi)] = const(g) if g is not None else NONE
+            for gname, g in m.groupdict().items():
+                groups[gname] = const(g) if g is not None else NONE
+            nxt = []
+            for s, acc in pieces:
+                if isinstance(acc, Raised):
+                    nxt.append((s, acc))
+                    continue
+                mo = s.alloc(HObj(("re", "Match"), {"lastgroup": NONE, "__groups__": VConst(groups), "__starts__": VConst({"0": const(m.start())}), "__ends__": VConst({"0": const(m.end())})}, {}, "match"))
+                for s2, r in self.call_value(s, repl, [mo], {}):
+                    if isinstance(r, Raised):
+                        nxt.append((s2, r))
+                        continue
+                    for s3, tv in self.split_tags(s2, r):
+                        if isinstance(tv, VStr):
+                            nxt.append((s3, acc + [z3.StringVal(lit), tv.t]))
+                        else:
+                            nxt.append(self.raised(s3, "TypeError", "expected str instance"))
+            pieces = nxt
+        out = []
+        for s, acc in pieces:
+            if isinstance(acc, Raised):
+                out.append((s, acc))
+            else:
+                parts = [p_ for p_ in acc + [z3.StringVal(src[pos:])]]
+                out.append((s, VStr(parts[0] if len(parts) == 1 else z3.Concat(*parts))))
+        return out
 
     def _regex_pred(self, st, rx, how, args):
         subject = self._s(args[0])
